@@ -524,7 +524,8 @@ fn read_or_fallback<S: StateRead>(
     mut key: Key,
     num_values: usize,
 ) -> Result<Vec<Vec<Word>>, S::Error> {
-    let mut out = Vec::with_capacity(num_values);
+    // `num_values` is chosen by the program being checked: do not reserve by it.
+    let mut out = Vec::new();
     match post.state.get(&contract_addr) {
         Some(contract_state) => {
             for _ in 0..num_values {
